@@ -165,22 +165,28 @@ def emit_reload(R):
     return '#line %d "%s"\nvoid DynamicConstructorDataGlobal_reloadPoints(DynamicConstructorDataGlobal *self)%s\n' % (p.line, X.REPO + "/" + p.rel, b), info
 
 
-def emit_restrict(R):
-    """DynamicConstructorDataGlobal::restrictData (inline in the header): the copy of a grid under construction restricted to an output range."""
+def emit_restrict(R, owner="class DynamicConstructorDataGlobal"):
+    """restrictData (inline in the header) of DynamicConstructorDataGlobal or SimpleConstructData: the copy of a grid under construction restricted to an output range."""
     ht = X.strip_comments(X.read_source(HPP))
-    cls = ht[ht.index("class DynamicConstructorDataGlobal"):]
+    cname = owner.split()[1]
+    if owner not in ht:
+        raise X.ExtractionBreak(owner + " not found")
+    cls = ht[ht.index(owner):]
     m = re.search(r'void\s+restrictData\s*\(\s*int\s+ibegin\s*,\s*int\s+iend\s*\)\s*(?=\{)', cls)
     if not m:
-        raise X.ExtractionBreak("DynamicConstructorDataGlobal::restrictData not found")
+        raise X.ExtractionBreak(cname + "::restrictData not found")
     e = X.match_close(cls, m.end())
     b = cls[m.end():e + 1]
     src = b
     b = R.sub("R6-range-for-list", r'for\s*\(\s*auto\s*&\s*(\w+)\s*:\s*data\s*\)', r'for (NodeData *\1 = self->data.bb.next; \1 != NULL; \1 = \1->next)', b)
-    b = R.sub("R5g-slice", r'\bd\.value\s*=\s*std::vector<double>\(\s*d\.value\.begin\(\)\s*\+\s*ibegin\s*,\s*d\.value\.begin\(\)\s*\+\s*iend\s*\)', 'd->value = gvec_slice(d->value, ibegin, iend)', b)
+    # the iterator pair of the range constructor becomes the pair of offsets from begin() (whatever the expressions are)
+    def slice_(mm):
+        return 'd->value = gvec_slice(d->value, %s, %s)' % (mm.group(1) or "0", mm.group(2) or "0")
+    b = R.sub("R5g-slice", r'\bd\.value\s*=\s*std::vector<double>\(\s*d\.value\.begin\(\)\s*(?:\+\s*([^,;]+?))?\s*,\s*d\.value\.begin\(\)\s*(?:\+\s*([^;]+?))?\s*\)(?=\s*;)', slice_, b)
     b = R.sub("R10-member", r'(?<![\w.>])num_outputs\b', 'self->num_outputs', b)
     X.check_leftover(b, "restrictData")
     R.require({"R6-range-for-list": 1, "R5g-slice": 1})
-    line = ht[:ht.index("class DynamicConstructorDataGlobal")].count("\n") + cls[:m.start()].count("\n") + 1
-    info = {"functions": [{"name": "DynamicConstructorDataGlobal::restrictData", "file": HPP, "line": line, "loops": 1}], "rules_fired": {k: v for k, v in R.counts.items() if v},
+    line = ht[:ht.index(owner)].count("\n") + cls[:m.start()].count("\n") + 1
+    info = {"functions": [{"name": cname + "::restrictData", "file": HPP, "line": line, "loops": 1}], "rules_fired": {k: v for k, v in R.counts.items() if v},
             "fidelity": X.fidelity(src, b, extra_vocab=["auto", "d", "data", "value", "std", "vector", "double", "begin", "ibegin", "iend", "num_outputs", "size_t", "&", ":", "+", "=", "(", ")"], slack=12)}
-    return '#line %d "%s"\nvoid DynamicConstructorDataGlobal_restrictData(DynamicConstructorDataGlobal *self, int ibegin, int iend)%s\n' % (line, X.REPO + "/" + HPP, b), info
+    return '#line %d "%s"\nvoid %s_restrictData(%s *self, int ibegin, int iend)%s\n' % (line, X.REPO + "/" + HPP, cname, cname, b), info
